@@ -35,6 +35,7 @@ fn mk(label: &str, prefix: Vec<Op>, alphabet: Vec<Op>, depth: usize, budget: usi
             reopen_cfg: None,
         oom_tolerant: false,
         vacuum_with_sessions: false,
+        census_end: false,
         },
     };
     Search { label: label.into(), engine: "plan", params: serde_json::to_value(&p).unwrap(), alphabet_shown: alphabet.iter().map(|o| o.show()).collect(), max_depth: depth, budget, timeout_s: 90 }
@@ -270,6 +271,7 @@ pub fn c12(tier: &str) -> i32 {
             reopen_cfg: None,
         oom_tolerant: false,
         vacuum_with_sessions: false,
+        census_end: false,
         },
         cfgs: cfgs.clone(),
         oom_allowed_below: 24,
